@@ -47,7 +47,7 @@ func (o op) coq() string {
 		return fmt.Sprintf("Send %d", o.A)
 	case "resp":
 		return fmt.Sprintf("Response %d false", o.A)
-	case "respclose":
+	case "respclose", "respdup":
 		return fmt.Sprintf("Response %d true", o.A)
 	case "lreset", "lresetrace":
 		return fmt.Sprintf("LocalReset %d", o.A)
@@ -75,6 +75,8 @@ func (o op) coq() string {
 		return "ExtReq true"
 	case "extdec":
 		return "ExtReq false"
+	case "dup", "resprace":
+		return "ExtReq false" // never used: histories with this op are finder-only (noModel)
 	}
 	panic("op " + o.K)
 }
@@ -153,7 +155,7 @@ func (w *world) enabled(full bool) []op {
 		}
 	}
 	ops = append(ops, op{K: "shutdown"})
-	if w.maxReq != 0 {
+	if w.maxReq != 0 { // (generator choice: an external holder only matters when there is a limit)
 		ops = append(ops, op{K: "extinc"})
 		if w.ext > 0 {
 			ops = append(ops, op{K: "extdec"})
@@ -163,6 +165,17 @@ func (w *world) enabled(full bool) []op {
 }
 
 func (w *world) apply(o op) int {
+	// a scripted op whose stream / connection does not exist (an earlier step of the script was refused) is skipped
+	switch o.K {
+	case "send", "resp", "respclose", "respdup", "resprace", "lreset", "rreset", "lresetrace", "rresetrace", "respcloserace":
+		if o.A >= len(w.leases) {
+			return resNone
+		}
+	case "dup", "closer", "closel", "closerst", "closereaderr", "closewerr", "closewto", "goaway":
+		if o.A >= len(w.clients) {
+			return resNone
+		}
+	}
 	switch o.K {
 	case "new":
 		return w.newStream(dialOK, true)
@@ -239,12 +252,23 @@ func (w *world) apply(o op) int {
 			}
 		}
 		w.noModel = true
+	case "dup":
+		if w.dupResponse(w.clients[o.A]) {
+			w.lastCoq = []string{fmt.Sprintf("ConnClose %d EvLocal", o.A)}
+		} else {
+			w.noModel = true
+		}
 	case "send":
 		w.send(w.leases[o.A])
 	case "resp":
 		w.respond(w.leases[o.A], false)
 	case "respclose":
 		w.respond(w.leases[o.A], true)
+	case "respdup":
+		w.respondX(w.leases[o.A], false, true)
+	case "resprace":
+		w.respRace(w.leases[o.A])
+		w.noModel = true
 	case "lreset":
 		w.localReset(w.leases[o.A])
 	case "rreset":
@@ -424,10 +448,7 @@ func (w *world) check(fs *finderState, o op, ob obs) []finding {
 		}
 		add(sig+":after-"+opClass, fmt.Sprintf("upstream_connection_active host=%d cluster=%d but %d connections of the pool are open", ga, gc, open))
 	}
-	wantReq := int64(0)
-	if w.maxReq != 0 {
-		wantReq = int64(nlive + w.ext)
-	}
+	wantReq := int64(nlive + w.ext) // the resource counts for every max_requests, 0 (unlimited) included
 	if ob.Req != wantReq && fs.first(fmt.Sprint("req", ob.Req-wantReq)) {
 		add("requests-counter-differs:after-"+opClass, fmt.Sprintf("Requests().Cur()=%d but %d streams are live (+%d held externally)", ob.Req, nlive, w.ext))
 	}
@@ -509,11 +530,16 @@ func (h *histResult) descr() map[string]interface{} {
 
 // runHistory runs one history; pick chooses the next op among the enabled ones (nil = stop).
 func runHistory(kind poolKind, maxConn, maxReq uint64, depth int, full bool, probe bool, pick func(step int, en []op) *op) *histResult {
+	return runHistoryD(kind, maxConn, maxReq, depth, full, probe, 0, pick)
+}
+
+func runHistoryD(kind poolKind, maxConn, maxReq uint64, depth int, full bool, probe bool, raceDelay time.Duration, pick func(step int, en []op) *op) *histResult {
 	w, err := newWorld(kind, maxConn, maxReq)
 	if err != nil {
 		panic(err)
 	}
 	defer w.close()
+	w.raceDelay = raceDelay
 	h := &histResult{kind: kind, maxConn: maxConn, maxReq: maxReq}
 	fs := &finderState{overlapSeen: map[int]int{}, lostSeen: map[int]bool{}, seen: map[string]bool{}}
 	for step := 0; step < depth; step++ {
@@ -535,6 +561,7 @@ func runHistory(kind poolKind, maxConn, maxReq uint64, depth int, full bool, pro
 	if probe {
 		h.findings = append(h.findings, w.capacityProbe(fs)...)
 	}
+	h.findings = append(h.findings, w.recheckDelivered()...)
 	h.timeouts = w.timeouts
 	h.noModel, h.raced = w.noModel, w.raced
 	for _, c := range w.clients {
@@ -734,6 +761,45 @@ func c09(args []string) int {
 						}
 					}
 				}
+			}
+		}
+	}
+	// family "late-response" (finder only): the upstream repeats the answer of a finished exchange (duplicate / late answer) on a
+	// connection that is idle or already leased to the next stream: the new lessee must never receive it
+	for _, kind := range []poolKind{kHTTP1, kPingPong} {
+		for _, mc := range []uint64{0, 1} {
+			for _, script := range [][]op{
+				{{K: "new"}, {"resp", 0}, {"dup", 0}, {K: "new"}, {"resp", 1}, {K: "new"}, {"resp", 2}},
+				{{K: "new"}, {"resp", 0}, {K: "new"}, {"dup", 0}, {"resp", 1}, {K: "new"}, {"resp", 2}},
+				{{K: "new"}, {"resp", 0}, {K: "newnosend"}, {"dup", 0}, {"send", 1}, {"resp", 1}},
+				{{K: "new"}, {"resp", 0}, {"dup", 0}, {"dup", 0}, {K: "new"}, {"lreset", 1}, {K: "new"}, {"resp", 2}},
+				{{K: "new"}, {K: "new"}, {"resp", 1}, {"resp", 0}, {"dup", 0}, {"dup", 1}, {K: "new"}, {K: "new"}, {"resp", 2}, {"resp", 3}},
+				{{K: "new"}, {"respdup", 0}, {K: "new"}, {"resp", 1}, {K: "new"}, {"respdup", 2}, {K: "new"}, {"resp", 3}},
+			} {
+				if kind != kHTTP1 && script[1].K == "respdup" {
+					continue
+				}
+				kind, mc, script := kind, mc, script
+				jobs = append(jobs, func() {
+					h := runOps(kind, mc, 0, script, true)
+					h.family = "late-response"
+					collect(h)
+				})
+			}
+		}
+	}
+	// family "response-race" (finder only): the answer of a request and its local reset (time-out) at the same instant, the
+	// reset fired 0 / 20 / 60 / 150 us after the answer was written; then more streams on the same pool
+	for _, kind := range []poolKind{kHTTP1, kPingPong} {
+		for _, mc := range []uint64{0, 2} {
+			for rep := 0; rep < run.N(8, 80); rep++ {
+				kind, mc, rep := kind, mc, rep
+				jobs = append(jobs, func() {
+					script := []op{{K: "new"}, {K: "new"}, {"resprace", 0}, {"resprace", 1}, {K: "new"}, {K: "new"}, {"resp", 2}, {"resprace", 3}, {K: "new"}, {"resp", 4}}
+					h := runHistoryD(kind, mc, 0, len(script), true, true, time.Duration([]int{0, 20, 60, 150}[rep%4])*time.Microsecond, func(step int, en []op) *op { return &script[step] })
+					h.family = "response-race"
+					collect(h)
+				})
 			}
 		}
 	}
